@@ -19,9 +19,22 @@ func C04(c *mc.Ctx) {
 		depth = 6
 	}
 	runIC(c, "C04", c04Oracle, fix.Options{}, "icmc", alphabet, depth)
+	// between two BitXHubs (this node is the source hub): receipts signed by the remote hub's
+	// validators and the destination hub's begin-failure / begin-rollback notices
+	hubAlpha := []string{"req:ph:n:2", "rc:ph:n:s", "rc:ph:n:f", "nt:ph:n:bf", "nt:ph:n:br", "nt:ph:d:br", "nt:ph:d:bf", "rc:ph:d:s", "nt:ph:u:br", "rc:ph:n:r", "req:ph:n:2+nt:ph:n:br", "nt:ph:n:bf+rc:ph:n:s", "empty"}
+	hubDepth := 4
+	if !c.Quick() {
+		hubAlpha = append(hubAlpha, "nt:ph:f:br", "req:ph:n:2+req:ph:n:2", "rc:ph:n:s+nt:ph:d:br", "reopen", "req:p1:n:2")
+		hubDepth = 5
+	}
+	runIC(c, "C04", c04Oracle, fix.Options{}, "icmc-inter-hub", hubAlpha, hubDepth)
+	// the same between two hubs with a source service that is registered as unordered
+	runIC(c, "C04", c04Oracle, fix.Options{}, "icmc-unordered-inter-hub",
+		[]string{"req:pu:n:2", "rc:pu:n:s", "rc:pu:n:f", "nt:pu:n:br", "nt:pu:d:br", "nt:pu:d:bf", "nt:pu:n:bf"}, hubDepth)
 	fix.Cleanup()
+	c.Set("rule_inter_hub", "BFS (depth 4, thorough 5) on a world with a registered remote BitXHub: requests of a local service to a service on the remote hub, receipts success/failure/rollback signed by two of the remote hub's four validators, begin-failure and begin-rollback notices of the destination hub (next index, after a final state, unknown id), empty blocks: BEGIN goes to SUCCESS/FAILURE by receipt, to FAILURE/ROLLBACK by notice, no timeout runs on the source hub, final states never change, every other event is rejected")
 	c.Set("rule", "BFS over block histories of requests (timeout 0/1/2, available and blacklisting destination), receipts success/failure/rollback (next, duplicate i.e. after a final state), empty blocks and reopen; after every block the stored status of every known transaction id and the receipt verdict of every IBTP are compared with the reference state machine transcribed from the property")
-	c.Assume("all proofs valid (HappyRule); inter-BitXHub notices are covered by the inter-hub scenario set only")
+	c.Assume("all proofs valid (HappyRule / two valid validator signatures); this node is the source hub in the inter-BitXHub exploration")
 	if c.Get("rejections_expected") == 0 || c.Get("acceptances_expected") == 0 {
 		c.HarnessError("vacuous: model never rejected / never accepted")
 	}
